@@ -153,7 +153,9 @@ Record ostate := {
   s_frame_id : N;                             (* frame id of the last fragment read *)
   s_notify : bool;                            (* stored wake-up permit of the database *)
   s_sel_status : N; s_op_status : N; s_app_iin : N;
-  s_answers : list answer
+  s_answers : list answer;
+  s_bcast_rep : option (bool * N)          (* UNS bit and sequence of the response that last reported a
+                                             confirm-mandatory broadcast (fix F25) *)
 }.
 
 Definition ostate_init (cfg : ocfg) (sel op appiin : N) : ostate := {|
@@ -161,7 +163,7 @@ Definition ostate_init (cfg : ocfg) (sel op appiin : N) : ostate := {|
   s_last := None; s_select := None; s_unsol := UNullRequired; s_unsol_seq := 0;
   s_deferred := None; s_last_recorded := None; s_last_bcast := None;
   s_sol_buf := []; s_unsol_buf := []; s_pending := None; s_frame_id := 0; s_notify := false;
-  s_sel_status := sel; s_op_status := op; s_app_iin := appiin; s_answers := [] |}.
+  s_sel_status := sel; s_op_status := op; s_app_iin := appiin; s_answers := []; s_bcast_rep := None |}.
 
 (* ---------- small helpers ------------------------------------------------------------------- *)
 
@@ -217,130 +219,156 @@ Definition upd_control (s : ostate) (c : control) : ostate :=
      s_deferred := s_deferred s; s_last_recorded := s_last_recorded s; s_last_bcast := s_last_bcast s;
      s_sol_buf := s_sol_buf s; s_unsol_buf := s_unsol_buf s; s_pending := s_pending s;
      s_frame_id := s_frame_id s; s_notify := s_notify s; s_sel_status := s_sel_status s;
-     s_op_status := s_op_status s; s_app_iin := s_app_iin s; s_answers := s_answers s |}.
+     s_op_status := s_op_status s; s_app_iin := s_app_iin s; s_answers := s_answers s;
+     s_bcast_rep := s_bcast_rep s |}.
 Definition upd_now (s : ostate) (t : Z) : ostate :=
   {| s_now := t; s_control := s_control s; s_restart_iin := s_restart_iin s; s_enabled := s_enabled s;
      s_last := s_last s; s_select := s_select s; s_unsol := s_unsol s; s_unsol_seq := s_unsol_seq s;
      s_deferred := s_deferred s; s_last_recorded := s_last_recorded s; s_last_bcast := s_last_bcast s;
      s_sol_buf := s_sol_buf s; s_unsol_buf := s_unsol_buf s; s_pending := s_pending s;
      s_frame_id := s_frame_id s; s_notify := s_notify s; s_sel_status := s_sel_status s;
-     s_op_status := s_op_status s; s_app_iin := s_app_iin s; s_answers := s_answers s |}.
+     s_op_status := s_op_status s; s_app_iin := s_app_iin s; s_answers := s_answers s;
+     s_bcast_rep := s_bcast_rep s |}.
 Definition upd_restart (s : ostate) (b : bool) : ostate :=
   {| s_now := s_now s; s_control := s_control s; s_restart_iin := b; s_enabled := s_enabled s;
      s_last := s_last s; s_select := s_select s; s_unsol := s_unsol s; s_unsol_seq := s_unsol_seq s;
      s_deferred := s_deferred s; s_last_recorded := s_last_recorded s; s_last_bcast := s_last_bcast s;
      s_sol_buf := s_sol_buf s; s_unsol_buf := s_unsol_buf s; s_pending := s_pending s;
      s_frame_id := s_frame_id s; s_notify := s_notify s; s_sel_status := s_sel_status s;
-     s_op_status := s_op_status s; s_app_iin := s_app_iin s; s_answers := s_answers s |}.
+     s_op_status := s_op_status s; s_app_iin := s_app_iin s; s_answers := s_answers s;
+     s_bcast_rep := s_bcast_rep s |}.
 Definition upd_enabled (s : ostate) (e : bool * bool * bool) : ostate :=
   {| s_now := s_now s; s_control := s_control s; s_restart_iin := s_restart_iin s; s_enabled := e;
      s_last := s_last s; s_select := s_select s; s_unsol := s_unsol s; s_unsol_seq := s_unsol_seq s;
      s_deferred := s_deferred s; s_last_recorded := s_last_recorded s; s_last_bcast := s_last_bcast s;
      s_sol_buf := s_sol_buf s; s_unsol_buf := s_unsol_buf s; s_pending := s_pending s;
      s_frame_id := s_frame_id s; s_notify := s_notify s; s_sel_status := s_sel_status s;
-     s_op_status := s_op_status s; s_app_iin := s_app_iin s; s_answers := s_answers s |}.
+     s_op_status := s_op_status s; s_app_iin := s_app_iin s; s_answers := s_answers s;
+     s_bcast_rep := s_bcast_rep s |}.
 Definition upd_last (s : ostate) (l : option last_request) : ostate :=
   {| s_now := s_now s; s_control := s_control s; s_restart_iin := s_restart_iin s; s_enabled := s_enabled s;
      s_last := l; s_select := s_select s; s_unsol := s_unsol s; s_unsol_seq := s_unsol_seq s;
      s_deferred := s_deferred s; s_last_recorded := s_last_recorded s; s_last_bcast := s_last_bcast s;
      s_sol_buf := s_sol_buf s; s_unsol_buf := s_unsol_buf s; s_pending := s_pending s;
      s_frame_id := s_frame_id s; s_notify := s_notify s; s_sel_status := s_sel_status s;
-     s_op_status := s_op_status s; s_app_iin := s_app_iin s; s_answers := s_answers s |}.
+     s_op_status := s_op_status s; s_app_iin := s_app_iin s; s_answers := s_answers s;
+     s_bcast_rep := s_bcast_rep s |}.
 Definition upd_select (s : ostate) (x : option select_state) : ostate :=
   {| s_now := s_now s; s_control := s_control s; s_restart_iin := s_restart_iin s; s_enabled := s_enabled s;
      s_last := s_last s; s_select := x; s_unsol := s_unsol s; s_unsol_seq := s_unsol_seq s;
      s_deferred := s_deferred s; s_last_recorded := s_last_recorded s; s_last_bcast := s_last_bcast s;
      s_sol_buf := s_sol_buf s; s_unsol_buf := s_unsol_buf s; s_pending := s_pending s;
      s_frame_id := s_frame_id s; s_notify := s_notify s; s_sel_status := s_sel_status s;
-     s_op_status := s_op_status s; s_app_iin := s_app_iin s; s_answers := s_answers s |}.
+     s_op_status := s_op_status s; s_app_iin := s_app_iin s; s_answers := s_answers s;
+     s_bcast_rep := s_bcast_rep s |}.
 Definition upd_unsol (s : ostate) (u : unsol_state) : ostate :=
   {| s_now := s_now s; s_control := s_control s; s_restart_iin := s_restart_iin s; s_enabled := s_enabled s;
      s_last := s_last s; s_select := s_select s; s_unsol := u; s_unsol_seq := s_unsol_seq s;
      s_deferred := s_deferred s; s_last_recorded := s_last_recorded s; s_last_bcast := s_last_bcast s;
      s_sol_buf := s_sol_buf s; s_unsol_buf := s_unsol_buf s; s_pending := s_pending s;
      s_frame_id := s_frame_id s; s_notify := s_notify s; s_sel_status := s_sel_status s;
-     s_op_status := s_op_status s; s_app_iin := s_app_iin s; s_answers := s_answers s |}.
+     s_op_status := s_op_status s; s_app_iin := s_app_iin s; s_answers := s_answers s;
+     s_bcast_rep := s_bcast_rep s |}.
 Definition upd_unsol_seq (s : ostate) (q : N) : ostate :=
   {| s_now := s_now s; s_control := s_control s; s_restart_iin := s_restart_iin s; s_enabled := s_enabled s;
      s_last := s_last s; s_select := s_select s; s_unsol := s_unsol s; s_unsol_seq := q;
      s_deferred := s_deferred s; s_last_recorded := s_last_recorded s; s_last_bcast := s_last_bcast s;
      s_sol_buf := s_sol_buf s; s_unsol_buf := s_unsol_buf s; s_pending := s_pending s;
      s_frame_id := s_frame_id s; s_notify := s_notify s; s_sel_status := s_sel_status s;
-     s_op_status := s_op_status s; s_app_iin := s_app_iin s; s_answers := s_answers s |}.
+     s_op_status := s_op_status s; s_app_iin := s_app_iin s; s_answers := s_answers s;
+     s_bcast_rep := s_bcast_rep s |}.
 Definition upd_deferred (s : ostate) (d : option deferred) : ostate :=
   {| s_now := s_now s; s_control := s_control s; s_restart_iin := s_restart_iin s; s_enabled := s_enabled s;
      s_last := s_last s; s_select := s_select s; s_unsol := s_unsol s; s_unsol_seq := s_unsol_seq s;
      s_deferred := d; s_last_recorded := s_last_recorded s; s_last_bcast := s_last_bcast s;
      s_sol_buf := s_sol_buf s; s_unsol_buf := s_unsol_buf s; s_pending := s_pending s;
      s_frame_id := s_frame_id s; s_notify := s_notify s; s_sel_status := s_sel_status s;
-     s_op_status := s_op_status s; s_app_iin := s_app_iin s; s_answers := s_answers s |}.
+     s_op_status := s_op_status s; s_app_iin := s_app_iin s; s_answers := s_answers s;
+     s_bcast_rep := s_bcast_rep s |}.
 Definition upd_last_recorded (s : ostate) (t : option Z) : ostate :=
   {| s_now := s_now s; s_control := s_control s; s_restart_iin := s_restart_iin s; s_enabled := s_enabled s;
      s_last := s_last s; s_select := s_select s; s_unsol := s_unsol s; s_unsol_seq := s_unsol_seq s;
      s_deferred := s_deferred s; s_last_recorded := t; s_last_bcast := s_last_bcast s;
      s_sol_buf := s_sol_buf s; s_unsol_buf := s_unsol_buf s; s_pending := s_pending s;
      s_frame_id := s_frame_id s; s_notify := s_notify s; s_sel_status := s_sel_status s;
-     s_op_status := s_op_status s; s_app_iin := s_app_iin s; s_answers := s_answers s |}.
+     s_op_status := s_op_status s; s_app_iin := s_app_iin s; s_answers := s_answers s;
+     s_bcast_rep := s_bcast_rep s |}.
 Definition upd_last_bcast (s : ostate) (b : option bcast_mode) : ostate :=
   {| s_now := s_now s; s_control := s_control s; s_restart_iin := s_restart_iin s; s_enabled := s_enabled s;
      s_last := s_last s; s_select := s_select s; s_unsol := s_unsol s; s_unsol_seq := s_unsol_seq s;
      s_deferred := s_deferred s; s_last_recorded := s_last_recorded s; s_last_bcast := b;
      s_sol_buf := s_sol_buf s; s_unsol_buf := s_unsol_buf s; s_pending := s_pending s;
      s_frame_id := s_frame_id s; s_notify := s_notify s; s_sel_status := s_sel_status s;
-     s_op_status := s_op_status s; s_app_iin := s_app_iin s; s_answers := s_answers s |}.
+     s_op_status := s_op_status s; s_app_iin := s_app_iin s; s_answers := s_answers s;
+     s_bcast_rep := s_bcast_rep s |}.
+Definition upd_bcast_rep (s : ostate) (r : option (bool * N)) : ostate :=
+  {| s_now := s_now s; s_control := s_control s; s_restart_iin := s_restart_iin s; s_enabled := s_enabled s;
+     s_last := s_last s; s_select := s_select s; s_unsol := s_unsol s; s_unsol_seq := s_unsol_seq s;
+     s_deferred := s_deferred s; s_last_recorded := s_last_recorded s; s_last_bcast := s_last_bcast s;
+     s_sol_buf := s_sol_buf s; s_unsol_buf := s_unsol_buf s; s_pending := s_pending s;
+     s_frame_id := s_frame_id s; s_notify := s_notify s; s_sel_status := s_sel_status s;
+     s_op_status := s_op_status s; s_app_iin := s_app_iin s; s_answers := s_answers s;
+     s_bcast_rep := r |}.
 Definition upd_sol_buf (s : ostate) (b : list N) : ostate :=
   {| s_now := s_now s; s_control := s_control s; s_restart_iin := s_restart_iin s; s_enabled := s_enabled s;
      s_last := s_last s; s_select := s_select s; s_unsol := s_unsol s; s_unsol_seq := s_unsol_seq s;
      s_deferred := s_deferred s; s_last_recorded := s_last_recorded s; s_last_bcast := s_last_bcast s;
      s_sol_buf := b; s_unsol_buf := s_unsol_buf s; s_pending := s_pending s;
      s_frame_id := s_frame_id s; s_notify := s_notify s; s_sel_status := s_sel_status s;
-     s_op_status := s_op_status s; s_app_iin := s_app_iin s; s_answers := s_answers s |}.
+     s_op_status := s_op_status s; s_app_iin := s_app_iin s; s_answers := s_answers s;
+     s_bcast_rep := s_bcast_rep s |}.
 Definition upd_unsol_buf (s : ostate) (b : list N) : ostate :=
   {| s_now := s_now s; s_control := s_control s; s_restart_iin := s_restart_iin s; s_enabled := s_enabled s;
      s_last := s_last s; s_select := s_select s; s_unsol := s_unsol s; s_unsol_seq := s_unsol_seq s;
      s_deferred := s_deferred s; s_last_recorded := s_last_recorded s; s_last_bcast := s_last_bcast s;
      s_sol_buf := s_sol_buf s; s_unsol_buf := b; s_pending := s_pending s;
      s_frame_id := s_frame_id s; s_notify := s_notify s; s_sel_status := s_sel_status s;
-     s_op_status := s_op_status s; s_app_iin := s_app_iin s; s_answers := s_answers s |}.
+     s_op_status := s_op_status s; s_app_iin := s_app_iin s; s_answers := s_answers s;
+     s_bcast_rep := s_bcast_rep s |}.
 Definition upd_pending (s : ostate) (p : option (N * option bcast_mode * list N * digest * N)) : ostate :=
   {| s_now := s_now s; s_control := s_control s; s_restart_iin := s_restart_iin s; s_enabled := s_enabled s;
      s_last := s_last s; s_select := s_select s; s_unsol := s_unsol s; s_unsol_seq := s_unsol_seq s;
      s_deferred := s_deferred s; s_last_recorded := s_last_recorded s; s_last_bcast := s_last_bcast s;
      s_sol_buf := s_sol_buf s; s_unsol_buf := s_unsol_buf s; s_pending := p;
      s_frame_id := s_frame_id s; s_notify := s_notify s; s_sel_status := s_sel_status s;
-     s_op_status := s_op_status s; s_app_iin := s_app_iin s; s_answers := s_answers s |}.
+     s_op_status := s_op_status s; s_app_iin := s_app_iin s; s_answers := s_answers s;
+     s_bcast_rep := s_bcast_rep s |}.
 Definition upd_frame_id (s : ostate) (f : N) : ostate :=
   {| s_now := s_now s; s_control := s_control s; s_restart_iin := s_restart_iin s; s_enabled := s_enabled s;
      s_last := s_last s; s_select := s_select s; s_unsol := s_unsol s; s_unsol_seq := s_unsol_seq s;
      s_deferred := s_deferred s; s_last_recorded := s_last_recorded s; s_last_bcast := s_last_bcast s;
      s_sol_buf := s_sol_buf s; s_unsol_buf := s_unsol_buf s; s_pending := s_pending s;
      s_frame_id := f; s_notify := s_notify s; s_sel_status := s_sel_status s;
-     s_op_status := s_op_status s; s_app_iin := s_app_iin s; s_answers := s_answers s |}.
+     s_op_status := s_op_status s; s_app_iin := s_app_iin s; s_answers := s_answers s;
+     s_bcast_rep := s_bcast_rep s |}.
 Definition upd_notify (s : ostate) (b : bool) : ostate :=
   {| s_now := s_now s; s_control := s_control s; s_restart_iin := s_restart_iin s; s_enabled := s_enabled s;
      s_last := s_last s; s_select := s_select s; s_unsol := s_unsol s; s_unsol_seq := s_unsol_seq s;
      s_deferred := s_deferred s; s_last_recorded := s_last_recorded s; s_last_bcast := s_last_bcast s;
      s_sol_buf := s_sol_buf s; s_unsol_buf := s_unsol_buf s; s_pending := s_pending s;
      s_frame_id := s_frame_id s; s_notify := b; s_sel_status := s_sel_status s;
-     s_op_status := s_op_status s; s_app_iin := s_app_iin s; s_answers := s_answers s |}.
+     s_op_status := s_op_status s; s_app_iin := s_app_iin s; s_answers := s_answers s;
+     s_bcast_rep := s_bcast_rep s |}.
 Definition upd_knobs (s : ostate) (sel op appiin : N) : ostate :=
   {| s_now := s_now s; s_control := s_control s; s_restart_iin := s_restart_iin s; s_enabled := s_enabled s;
      s_last := s_last s; s_select := s_select s; s_unsol := s_unsol s; s_unsol_seq := s_unsol_seq s;
      s_deferred := s_deferred s; s_last_recorded := s_last_recorded s; s_last_bcast := s_last_bcast s;
      s_sol_buf := s_sol_buf s; s_unsol_buf := s_unsol_buf s; s_pending := s_pending s;
      s_frame_id := s_frame_id s; s_notify := s_notify s; s_sel_status := sel;
-     s_op_status := op; s_app_iin := appiin; s_answers := s_answers s |}.
+     s_op_status := op; s_app_iin := appiin; s_answers := s_answers s;
+     s_bcast_rep := s_bcast_rep s |}.
 Definition upd_answers (s : ostate) (a : list answer) : ostate :=
   {| s_now := s_now s; s_control := s_control s; s_restart_iin := s_restart_iin s; s_enabled := s_enabled s;
      s_last := s_last s; s_select := s_select s; s_unsol := s_unsol s; s_unsol_seq := s_unsol_seq s;
      s_deferred := s_deferred s; s_last_recorded := s_last_recorded s; s_last_bcast := s_last_bcast s;
      s_sol_buf := s_sol_buf s; s_unsol_buf := s_unsol_buf s; s_pending := s_pending s;
      s_frame_id := s_frame_id s; s_notify := s_notify s; s_sel_status := s_sel_status s;
-     s_op_status := s_op_status s; s_app_iin := s_app_iin s; s_answers := a |}.
+     s_op_status := s_op_status s; s_app_iin := s_app_iin s; s_answers := a;
+     s_bcast_rep := s_bcast_rep s |}.
 
 (* SessionState::reset *)
 Definition session_reset (s : ostate) : ostate :=
-  upd_deferred (upd_select (upd_last s None) None) None.
+  upd_bcast_rep (upd_deferred (upd_select (upd_last s None) None) None) None.
 
 (* ---------- asking the environment ------------------------------------------------------------ *)
 
@@ -394,6 +422,23 @@ Definition or_iin (r : response) (iin : N * N) : response :=
 Definition with_ctl (r : response) (c : N) : response :=
   {| r_ctl := c; r_fn := r_fn r; r_iin1 := r_iin1 r; r_iin2 := r_iin2 r; r_size := r_size r |}.
 
+(* SessionState::broadcast_reported / broadcast_confirmed (fix F25): a confirm-mandatory indication is cleared
+   only by the CONFIRM of the response that reported it *)
+Definition bcast_reported (s : ostate) (ctl : N) : ostate :=
+  match s_last_bcast s with
+  | Some BMandatory => upd_bcast_rep s (Some (ctl_uns ctl, ctl_seq ctl))
+  | _ => s
+  end.
+
+Definition rep_eqb (r : option (bool * N)) (uns : bool) (seq : N) : bool :=
+  match r with
+  | Some (u, q) => Bool.eqb u uns && (q =? seq)
+  | None => false
+  end.
+
+Definition bcast_confirmed (s : ostate) (uns : bool) (seq : N) : ostate :=
+  if rep_eqb (s_bcast_rep s) uns seq then upd_last_bcast (upd_bcast_rep s None) None else s.
+
 (* write_solicited: returns the response as sent *)
 Definition write_solicited (s : ostate) (dest : N) (r : response) : ostate * response * list oobs :=
   let '(s1, iin, o) := response_iin s in
@@ -402,7 +447,7 @@ Definition write_solicited (s : ostate) (dest : N) (r : response) : ostate * res
             | Some BMandatory => with_ctl r1 (set_con (r_ctl r1))
             | _ => r1
             end in
-  (s1, r2, o ++ [OTx dest (response_bytes r2 (s_sol_buf s1))]).
+  (bcast_reported s1 (r_ctl r2), r2, o ++ [OTx dest (response_bytes r2 (s_sol_buf s1))]).
 
 Definition repeat_solicited (s : ostate) (dest : N) (r : response) : list oobs :=
   [OTx dest (response_bytes r (s_sol_buf s))].
@@ -410,7 +455,7 @@ Definition repeat_solicited (s : ostate) (dest : N) (r : response) : list oobs :
 Definition write_unsolicited (cfg : ocfg) (s : ostate) (r : response) : ostate * response * list oobs :=
   let '(s1, iin, o) := response_iin s in
   let r1 := or_iin r iin in
-  (s1, r1, o ++ [OTx (o_master cfg) (response_bytes r1 (s_unsol_buf s1))]).
+  (bcast_reported s1 (r_ctl r1), r1, o ++ [OTx (o_master cfg) (response_bytes r1 (s_unsol_buf s1))]).
 
 Definition repeat_unsolicited (cfg : ocfg) (s : ostate) (r : response) : list oobs :=
   [OTx (o_master cfg) (response_bytes r (s_unsol_buf s))].
@@ -818,7 +863,7 @@ Definition format_first_read_response (s : ostate) (seq : N) : ostate * response
 
 Definition process_broadcast (cfg : ocfg) (s : ostate) (m : bcast_mode) (frame_id ctl fn : N) (bytes : list N)
            (obj : objres) : ostate * list oobs :=
-  let s0 := upd_last_bcast s (Some m) in
+  let s0 := upd_bcast_rep (upd_last_bcast s (Some m)) None in
   if negb (o_broadcast cfg) then (s0, [OInfo (IBroadcast fn 1 0)])
   else match obj with
   | ObjErr _ => (s0, [OInfo (IBroadcast fn 2 0)])
@@ -993,10 +1038,9 @@ Definition unsol_wait_fragment (cfg : ocfg) (s : ostate) (resp : response) (from
       match classify s bc bytes ctl fn obj with
       | FtUnsolConfirm q =>
           if q =? ctl_seq (r_ctl resp)
-          then (upd_last_bcast s None, Some UrConfirmed, [OInfo (IUnsolConfirmed q)])
+          then (bcast_confirmed s true q, Some UrConfirmed, [OInfo (IUnsolConfirmed q)])
           else (s, None, [])
-      | FtSolConfirm _ =>
-          (match s_last_bcast s with Some BMandatory => upd_last_bcast s None | _ => s end, None, [])
+      | FtSolConfirm q => (bcast_confirmed s false q, None, [])
       | FtBroadcast m =>
           let '(s1, o) := process_broadcast cfg (upd_deferred s None) m frame_id ctl fn bytes obj in (s1, None, o)
       | FtMalformed iin2 =>
